@@ -9,7 +9,9 @@
                                    PartialAppLast(self, arg); the key of an atom is its name, of a
                                    function `fn`, of a list `list`, and `*` matches everything
        | (C id)                    opaque closure
-       | (K then|calll|apply|of|const|compr|compl|id|flip)   transcribed builtin
+       | (K then|calll|apply|of|const|compr|compl|id|flip|on)   transcribed builtin
+       | (Q parallel|fanout|lift)  transcribed function-building combinator ( *** &&& lift )
+       | (callhole A ...)          _(A ...): call section whose callee is the hole
        | (call E A ...) | (chain O E O) | (list A ...)
    A ::= E | (splat E) | _ | (splat _)          O ::= E | _
 
@@ -57,11 +59,11 @@ let rec parse_all toks = match toks with [] -> [] | _ -> let x, rest = parse_one
 
 let known_of = function
   | "then" -> KThen | "calll" -> KCallL | "apply" -> KApply | "of" -> KOf | "const" -> KConst
-  | "compr" -> KCompR | "compl" -> KCompL | "id" -> KId | "flip" -> KFlip
+  | "compr" -> KCompR | "compl" -> KCompL | "id" -> KId | "flip" -> KFlip | "on" -> KOn
   | s -> failwith ("unknown K " ^ s)
 let name_of_known = function
   | KThen -> "then" | KCallL -> "calll" | KApply -> "apply" | KOf -> "of" | KConst -> "const"
-  | KCompR -> "compr" | KCompL -> "compl" | KId -> "id" | KFlip -> "flip"
+  | KCompR -> "compr" | KCompL -> "compl" | KId -> "id" | KFlip -> "flip" | KOn -> "on"
 let atoms l = List.map (function A s -> s | _ -> failwith "flag list") l
 
 let rec expr_of (env : (string * v) list) (s : sx) : (bi, int, d) expr =
@@ -70,6 +72,10 @@ let rec expr_of (env : (string * v) list) (s : sx) : (bi, int, d) expr =
   | L [A "B"; A name; L p2; L pl] -> EVal (VFunc (FBuiltin { name; p2 = atoms p2; pl = atoms pl }))
   | L [A "C"; A id] -> EVal (VFunc (FClosure (int_of_string id)))
   | L [A "K"; A k] -> EVal (VFunc (FKnown (known_of k)))
+  | L [A "Q"; A "parallel"] -> EVal (VFunc (FCombinator CParallel))
+  | L [A "Q"; A "fanout"] -> EVal (VFunc (FCombinator CFanout))
+  | L [A "Q"; A "lift"] -> EVal (VFunc (FCombinator CLift))
+  | L (A "callhole" :: args) -> ECallHole (List.map (arg_of env) args)
   | L (A "call" :: f :: args) -> ECall (expr_of env f, List.map (arg_of env) args)
   | L [A "chain"; a; op; b] -> EChain (opd_of env a, expr_of env op, opd_of env b)
   | L (A "list" :: xs) -> EList (List.map (arg_of env) xs)
@@ -102,6 +108,12 @@ and show_f (f : f) : string = match f with
     "(chainsect " ^ (match s with Some x -> show_v x | None -> "_") ^ " " ^ show_f op ^ " " ^
     (match o with Some x -> show_v x | None -> "_") ^ ")"
   | FCallSection (c, sl) -> "(callsect " ^ show_v c ^ show_slots sl ^ ")"
+  | FOnComposition (g, h) -> "(oncomp " ^ show_f g ^ " " ^ show_f h ^ ")"
+  | FParallel fs -> "(parallel" ^ String.concat "" (List.map (fun g -> " " ^ show_f g) fs) ^ ")"
+  | FFanout fs -> "(fanout" ^ String.concat "" (List.map (fun g -> " " ^ show_f g) fs) ^ ")"
+  | FOnFanoutConst (g, gs) -> "(onfanoutconst " ^ show_f g ^ String.concat "" (List.map (fun x -> " " ^ show_v x) gs) ^ ")"
+  | FCombinator CParallel -> "(Q parallel)" | FCombinator CFanout -> "(Q fanout)" | FCombinator CLift -> "(Q lift)"
+  | FCallSectionHole sl -> "(callsecthole" ^ show_slots sl ^ ")"
 and show_slots sl = String.concat "" (List.map (function
   | SVal x -> " " ^ show_v x | SHole false -> " _" | SHole true -> " ..._") sl)
 
